@@ -88,7 +88,7 @@ function genSpec(seed, idx) {
   for (let m = 0; m < nMethods; m++) {
     const owner = rng.pick(opaques);
     // (0 = the method has no generics of its own and can only use the impl block's lifetimes)
-    const nl = owner.lts.length && rng.chance(1, 8) ? 0 : rng.pick([1, 2, 3, 4, 4]);
+    const nl = owner.lts.length >= 2 ? (rng.chance(1, 4) ? 0 : rng.pick([1, 2, 3, 4, 4])) : owner.lts.length && rng.chance(1, 10) ? 0 : rng.pick([1, 2, 3, 4, 4]);
     const lts = LTS.slice(0, nl);
     // the Self type of the impl block: usually fully generic, sometimes with a 'static slot (`impl<'s1> O<'static, 's1>`)
     let implLts = owner.lts.map((_, i) => (nl > 0 && rng.chance(1, 6) ? "static" : "s" + i));
@@ -119,6 +119,12 @@ function genSpec(seed, idx) {
         const same = rng.chance(1, 2) ? anyLt() : null;
         params.push({ name: "p" + p, kind: "struct", ty: s.name, args: s.lts.map(() => same ?? anyLt()) });
       }
+    }
+    if (nl === 0 && namedImpl.length >= 2 && self && self.lt) {
+      // a method on the impl's lifetimes only: self borrowed for one of them, another parameter on a different one
+      const other = namedImpl.filter((l) => l !== self.lt);
+      const o = rng.pick(opaques);
+      params.push({ name: "p" + params.length, kind: "opaque", ty: o.name, lt: rng.pick(other), args: o.lts.map(() => rng.pick(other)) });
     }
     if (mixedSelf && !params.some((p) => namedImpl.includes(p.lt))) {
       const o = rng.pick(opaques);
